@@ -473,7 +473,7 @@ def run(ctx):
             nbm = len(case["tsb"]) - len({j for j in res["ib1"] if j >= 0})
             cost = nam * nbm * min(nam, nbm)
             meas["max_second_pass_matrix_cost"] = max(meas.get("max_second_pass_matrix_cost", 0), cost)
-            if cost > 3_000_000:
+            if cost > 300_000:
                 dist["model_skipped_huge_second_pass"] += 1
                 continue
         inputs.append(enc_input(case, res["delta"]))
